@@ -220,7 +220,8 @@ def feasible(name, par, x, scale):
         return "output is not non-increasing"
     if name == "unimodality" and not is_unimodal(x, eps):
         return "output is not unimodal"
-    if name in ("hard", "normalized_sparsity") and int(np.count_nonzero(x)) > par:
+    if name in ("hard", "normalized_sparsity") and int(np.count_nonzero(x)) > rank_bound(par):
+        # (the documented level is an int; for other numbers the bound is the number of ranks below the level)
         return f"{int(np.count_nonzero(x))} non-zero entries, more than {par}"
     if name == "normalized_sparsity" and abs(float(np.sqrt((x ** 2).sum())) - 1) > 1e-9:
         return "output does not have unit l2 norm"
@@ -254,7 +255,7 @@ def reference(name, par, v):
     if name == "hard":
         x = np.zeros_like(v)
         if par > 0:
-            idx = np.argsort(-np.abs(v), kind="stable")[:par]
+            idx = np.argsort(-np.abs(v), kind="stable")[:rank_bound(par)]
             x[idx] = v[idx]
         return x
     if name == "normalized_sparsity":
@@ -291,7 +292,7 @@ def competitors(name, par, v, x, rng, scale):
         elif name == "unimodality":
             m = rng.randrange(n); out.append(np.concatenate([np.sort(z[:m]), np.sort(z[m:])[::-1]]))
         elif name in ("hard", "normalized_sparsity"):
-            k = min(int(par), n)
+            k = min(rank_bound(par), n)
             z2 = np.zeros(n); idx = rng.sample(range(n), k)
             z2[idx] = (v if rng.random() < 0.5 else z)[idx]
             if name == "normalized_sparsity":
@@ -493,9 +494,10 @@ DISPATCHABLE = [n for n in NAMES if n not in ("soft_arr", "monotone_dec")]
 def gen_par(rng, name, a, kind, scale):
     n = a.size
     if name == "hard":
-        return rng.choice([0, 1, 2, max(1, n // 2), n, n + 2])
+        # (also non-integer and negative levels: `rank < level` keeps ceil(level) entries, none for a level <= 0)
+        return rng.choice([0, 1, 2, max(1, n // 2), n, n + 2, 0.5, 1.5, n - 0.5, -1, -0.5])
     if name == "normalized_sparsity":
-        return rng.choice([1, 2, max(1, n // 2), n, n + 1])
+        return rng.choice([1, 2, max(1, n // 2), n, n + 1, 0.5, 1.5])
     if name == "soft_arr":
         return np.array([abs(x) for x in gen_values(rng, n, kind, rng.choice(["signed", "zeros"]), scale)]).reshape(a.shape)
     if name in ("simplex", "soft_sparsity"):
@@ -649,6 +651,12 @@ def fr_sumsq(xs):
     return sum((Fraction(float(x)) ** 2 for x in xs), Fraction(0))
 
 
+def rank_bound(par):
+    """hard_thresholding keeps the positions whose rank r = 0, 1, ... satisfies r < par: ceil(par) positions for par > 0, none otherwise
+    (Model/ProxDispatch.rank_bound); par is an int in sensible calls but any float is accepted by the code"""
+    return max(0, int(math.ceil(float(par))))
+
+
 def model_hard(v, k):
     """the tie rule of the model (stable descending order, later position first) -- only used to feed the norm tape"""
     order = sorted(range(len(v)), key=lambda i: (-abs(v[i]), -i))
@@ -682,20 +690,21 @@ def routed_lit(name, par, a, route):
         else:
             body = f"(ZScalar {qq(None if val is True else val)})"
         specs.append(f"({KIND[kw]}, {body})")
-    head = f"{int(route['n_const'])}%nat {int(route['order'])}%nat [" + "; ".join(specs) + "]"
+    tail = f"{int(route['order'])}%nat [" + "; ".join(specs) + "]"
     if name == "reject":
-        return f"(ORejected {head})"
+        return f"(ORejected {int(route['n_const'])}%nat {tail})"
+    head = ("None " if route["n_const"] is None else f"(Some {int(route['n_const'])}%nat) ") + tail
     aux = Fraction(0)
     if name == "l2":
         aux = sqrt_q(fr_sumsq(flat))
     elif name == "normalized_sparsity":
-        aux = sqrt_q(fr_sumsq(model_hard(flat, int(par))))
+        aux = sqrt_q(fr_sumsq(model_hard(flat, rank_bound(par))))
     return f"(ORouted {head} {C.q(aux)})"
 
 
 def op_lit(name, par, a, tape=None, route=None):
-    if isinstance(route, dict) and route.get("n_const") is not None:
-        return routed_lit(name, par, a, route)
+    if isinstance(route, dict):
+        return routed_lit(name, par, a, route)     # also n_const=None: the early exit is the model's (Model/ProxDispatch.selected_pop)
     flat = [float(x) for x in np.asarray(a, float).reshape(-1)]
     if name == "non_negative": return "ONonneg"
     if name == "soft": return f"(OSoft {C.q(float(par))})"
@@ -708,8 +717,8 @@ def op_lit(name, par, a, tape=None, route=None):
     if name == "monotone_inc": return "(OMonotone false)"
     if name == "monotone_dec": return "(OMonotone true)"
     if name == "unimodality": return "OUnimodal"
-    if name == "hard": return f"(OHard {int(par)}%nat)"
-    if name == "normalized_sparsity": return f"(ONormSparsity {int(par)}%nat {C.q(sqrt_q(fr_sumsq(model_hard(flat, int(par)))))})"
+    if name == "hard": return f"(OHard {rank_bound(par)}%nat)"
+    if name == "normalized_sparsity": return f"(ONormSparsity {rank_bound(par)}%nat {C.q(sqrt_q(fr_sumsq(model_hard(flat, rank_bound(par)))))})"
     if name == "normalize": return "ONormalize"
     if name == "identity": return "OIdentity"
     if name in ("svt", "procrustes"):
@@ -737,7 +746,7 @@ def in_domain(name, par, a):
     if name == "normalize":
         return bool(np.any(flat != 0))
     if name == "normalized_sparsity":
-        return bool(np.any(np.array(model_hard(list(flat), int(par))) != 0))
+        return bool(np.any(np.array(model_hard(list(flat), rank_bound(par))) != 0))
     return True
 
 
@@ -889,6 +898,9 @@ def run(chk):
     C.print_assumptions = parallel_print_assumptions
     chk.build_proofs()
     drop_header_pseudo_axiom(chk)
+    # corr:C12-static: the dispatch table regenerated from the current source by an ast translation, compared with the model inside Coq
+    from harness.props import C12_static
+    chk.cov["static_dispatch_tie"] = C12_static.run_static(chk)
     C.reset_backends()
     cases, meta = [], []
     # corpus first
